@@ -30,22 +30,22 @@ PROPS["C07"] = {
         {
             "pkg": "primitives/x25519", "configs": ALL4,
             "tests": {
-                "TestC07ScalarMult": T(3000, 150000),
+                "TestC07ScalarMult": T(2000, 100000),
                 "TestC07SpecialList": LIST(),
-                "TestC07Base": T(1500, 60000),
+                "TestC07Base": T(500, 20000),
                 "TestC07Lengths": LIST(),
-                "TestC07DH": T(600, 30000),
-                "TestC07EdConvert": T(1000, 40000),
-                "TestC07EdPublicAny": T(3000, 150000),
+                "TestC07DH": T(200, 8000),
+                "TestC07EdConvert": T(500, 20000),
+                "TestC07EdPublicAny": T(2000, 100000),
             },
         },
         {
             "pkg": "curve", "configs": ALL4,
             "tests": {
-                "TestC07MontMul": T(3000, 150000),
-                "TestC07MontEqual": T(3000, 150000),
-                "TestC07FixedBase": T(1500, 60000),
-                "TestC07SetEdwards": T(2000, 100000),
+                "TestC07MontMul": T(1500, 60000),
+                "TestC07MontEqual": T(3000, 200000),
+                "TestC07FixedBase": T(400, 15000),
+                "TestC07SetEdwards": T(1500, 60000),
             },
         },
     ],
